@@ -231,4 +231,322 @@ Proof.
     right. right. split; [exact H0|]. rewrite Hss. intro Hm. apply Hmono1. auto.
 Qed.
 
+(* ---- oracle cursors only move forward ------------------------------------------------------------------ *)
+Definition cur_eq (st st' : state) : Prop := s_nw st' = s_nw st /\ s_nc st' = s_nc st.
+
+Lemma result_step_cur sd st done r st' done' : result_step o sd (st, done) r = (st', done') -> cur_eq st st'.
+Proof.
+  unfold result_step, cur_eq. destruct r as [[t idx] rep]. destruct (amem t done); [intro H; injection H as <- _; auto|].
+  unfold notify_result, apply_decision, backend_stop, backend_pause.
+  destruct (o_dec o _); [| |destruct (sd_status t sd)]; intro H; injection H as <- _; simpl; auto.
+Qed.
+Lemma loop1_cur sd rs : forall st done st' done', loop1 o sd rs st done = (st', done') -> cur_eq st st'.
+Proof.
+  unfold loop1. induction rs as [|r rs IH]; intros st done st' done' H; cbn [fold_left] in H.
+  - injection H as <- _. split; reflexivity.
+  - destruct (result_step o sd (st, done) r) as [st1 done1] eqn:E1. apply result_step_cur in E1. apply IH in H.
+    unfold cur_eq in *. intuition congruence.
+Qed.
+Lemma status_step_cur st done err e st' done' err' : status_step (st, done, err) e = (st', done', err') -> cur_eq st st'.
+Proof.
+  unfold status_step, cur_eq. destruct err; [intro H; injection H as <- _ _; auto|]. destruct e as [t s].
+  destruct s; try (intro H; injection H as <- _ _; auto; fail).
+  - destruct (s_last st t); intro H; injection H as <- _ _; auto.
+    destruct (amem t done); destruct (match aget t done with Some Paused => Paused | _ => Completed end); auto.
+  - intro H; injection H as <- _ _. destruct (amem t done); auto.
+  - destruct (mem_nat t (s_sstopped st)); intro H; injection H as <- _ _; auto.
+Qed.
+Lemma loop2_cur sd : forall st done err st' done' err',
+  fold_left status_step sd (st, done, err) = (st', done', err') -> cur_eq st st'.
+Proof.
+  induction sd as [|e sd IH]; intros st done err st' done' err' H; cbn [fold_left] in H.
+  - injection H as <- _ _. split; reflexivity.
+  - destruct (status_step (st, done, err) e) as [[st1 done1] err1] eqn:E1. apply status_step_cur in E1. apply IH in H.
+    unfold cur_eq in *. intuition congruence.
+Qed.
+Lemma status_update_cur sd rs st : cur_eq st (status_update sd rs st).
+Proof.
+  unfold status_update. apply (fold_left_inv (fun s => cur_eq st s)).
+  - intros a r [A B]. unfold stats_add. destruct r as [[t i] rep]. split; simpl; assumption.
+  - split; reflexivity.
+Qed.
+
+(* ---- the drain step ------------------------------------------------------------------------------------- *)
+Lemma pnr_drains st st' done :
+  process_new_results prm o st = (st', done, None) -> NoDup (s_running st) ->
+  LInv st -> Tinv st -> looks_final_from (s_nw st) ->
+  (forall t, In t (s_running st) -> amem t done = true).
+Proof.
+  unfold process_new_results.
+  set (order := poll_order (s_running st) (o_ord o (s_np st))).
+  set (st0 := emit (EBFetch order) (set_np st (S (s_np st)))).
+  destruct (fetch o order st0) as [[st1 sd] rs] eqn:Ef.
+  intros H Hnd [HLI HR] HT Hf.
+  assert (HLI0 : LI st0 /\ forall x, phase_of x (s_trace st0) = phase_of x (s_trace st)).
+  { apply (LI_quiet st st0 [EBFetch order]); auto. intros x e [<-|[]]. reflexivity. }
+  destruct HLI0 as [HLI0 Hph0].
+  pose proof (fetch_drain _ _ _ _ _ Ef Hf) as [Hinact _].
+  apply fetch_spec in Ef. destruct Ef as (A & _ & _ & _ & _ & Hp & Hsdk & Hsd & _).
+  set (st1' := emit (ECbFetch sd (map (fun r => (fst (fst r), snd (fst r))) rs)) st1) in *.
+  destruct (Nat.ltb (n_workers prm) (length (s_running st1'))); [discriminate|].
+  destruct (loop1 o sd rs st1' []) as [st2 done2] eqn:E1.
+  pose proof (loop1_sst _ _ _ _ _ _ E1) as (_ & Hss2 & _).
+  destruct (loop2 sd st2 done2) as [[st3 done3] err3] eqn:E2. unfold loop2 in E2.
+  destruct err3; [discriminate|]. injection H as _ <-.
+  assert (Hstat : forall t s, In (t, s) sd -> In t (s_running st) /\ (s = Completed \/ s = Failed \/ s = Stopped)).
+  { intros t s Hin. assert (Hto : In t order) by (rewrite <- Hsdk; apply in_map_iff; exists (t, s); auto).
+    assert (Htr : In t (s_running st)) by (eapply poll_order_incl; eauto). split; [exact Htr|].
+    pose proof (Hsd t s Hin) as Hw. pose proof (Hinact t Hto) as Hi. rewrite Hw in Hi.
+    destruct s; simpl in Hi; try discriminate; auto.
+    exfalso. apply Hp in Hw. destruct HLI0 as (_ & _ & L4).
+    assert (Hz : phase_of t (s_trace st0) = PZ) by (apply L4; right; exact Hw).
+    rewrite Hph0, (HR t Htr) in Hz. discriminate. }
+  intros t Ht.
+  assert (Hto : In t order) by (apply poll_order_complete; exact Ht).
+  rewrite <- Hsdk in Hto. apply in_map_iff in Hto. destruct Hto as ([t' s] & Heq & Hin). simpl in Heq. subst t'.
+  eapply (loop2_all_done sd st2 done2 st3 done3 E2); [|exact Hin].
+  intros t0 s0 Hin0. destruct (Hstat t0 s0 Hin0) as [Hr0 [Hs0|[Hs0|Hs0]]]; subst s0; auto.
+  right. right. split; [reflexivity|]. intro Hm. apply mem_nat_In in Hm.
+  destruct (Hss2 t0 Hm) as [Hold|Hd]; [|exact Hd]. exfalso.
+  assert (Hold' : In t0 (s_sstopped st)).
+  { unfold st1' in Hold. simpl in Hold. destruct A as (_ & _ & _ & _ & Hs & _). rewrite Hs in Hold. exact Hold. }
+  destruct (stopped_phase t0 (s_trace st) (HT t0 Hold')) as [Hx|[Hx|[Hx|Hx]]]; rewrite (HR t0 Hr0) in Hx; discriminate.
+Qed.
+
+Lemma pnr_cur st st' done err : process_new_results prm o st = (st', done, err) -> s_nw st <= s_nw st' /\ s_nc st' = s_nc st.
+Proof.
+  unfold process_new_results.
+  set (order := poll_order (s_running st) (o_ord o (s_np st))).
+  set (st0 := emit (EBFetch order) (set_np st (S (s_np st)))).
+  destruct (fetch o order st0) as [[st1 sd] rs] eqn:Ef.
+  assert (F : s_nw st <= s_nw st1 /\ s_nc st1 = s_nc st).
+  { clear - Ef. unfold fetch in Ef.
+    destruct (fold_left fetch_one order (all_trial_results o order st0, [])) as [st2 rs2] eqn:E. injection Ef as <- _ _.
+    assert (G : forall l s0 r0 s2 r2, fold_left fetch_one l (s0, r0) = (s2, r2) -> s_nw s2 = s_nw s0 /\ s_nc s2 = s_nc s0).
+    { induction l as [|t l IH]; intros s0 r0 s2' r2' H; cbn [fold_left] in H; [injection H as <- _; auto|].
+      destruct (fetch_one (s0, r0) t) as [s1 r1] eqn:E1. apply IH in H. destruct H as [-> ->].
+      unfold fetch_one in E1. destruct (b_reports (s_bt s0 t)); [injection E1 as <- _; auto|].
+      destruct (hidden (b_w (s_bt s0 t))); injection E1 as <- _; auto. }
+    apply G in E. destruct E as [-> ->].
+    assert (G2 : forall l s0, s_nw s0 <= s_nw (all_trial_results o l s0) /\ s_nc (all_trial_results o l s0) = s_nc s0).
+    { unfold all_trial_results. induction l as [|t l IH]; intro s0; simpl; [auto|].
+      destruct (IH (world_apply o t s0)) as [A B]. pose proof (world_apply_nw t s0).
+      split; [lia|]. rewrite B. unfold world_apply. destruct (active _); [|reflexivity].
+      destruct (o_world o (s_nw s0)). reflexivity. }
+    destruct (G2 order st0) as [A B]. unfold st0 in *. simpl in *. split; [exact A|exact B]. }
+  set (st1' := emit (ECbFetch sd (map (fun r => (fst (fst r), snd (fst r))) rs)) st1).
+  destruct (Nat.ltb (n_workers prm) (length (s_running st1'))); [intro H; injection H as <- _ _; simpl; exact F|].
+  destruct (loop1 o sd rs st1' []) as [st2 done2] eqn:E1. apply loop1_cur in E1.
+  destruct (loop2 sd st2 done2) as [[st3 done3] err3] eqn:E2. unfold loop2 in E2. apply loop2_cur in E2.
+  unfold cur_eq in *. simpl in E1.
+  destruct err3; intro H; injection H as <- _ _.
+  - lia.
+  - destruct (status_update_cur (aupdate sd done3) rs st3) as [A B]. lia.
+Qed.
+
+Lemma poll_drains st st' :
+  poll prm o st = (st', None) -> binv prm st -> LInv st -> Tinv st -> looks_final_from (s_nw st) -> s_running st' = [].
+Proof.
+  unfold poll. destruct (process_new_results prm o (emit ECbLoopStart st)) as [[st1 done] err1] eqn:E.
+  intros H Hb HL HT Hf. destruct err1; [discriminate|]. injection H as <-.
+  pose proof E as Eb. apply pnr_budget in Eb. destruct Eb as (R1 & _). simpl in R1.
+  assert (HL0 : LInv (emit ECbLoopStart st)) by (apply LInv_emit_quiet; [reflexivity|exact HL]).
+  assert (HT0 : Tinv (emit ECbLoopStart st)) by (intros t Ht; destruct (HT t Ht) as [i Hi]; exists i; right; exact Hi).
+  pose proof (pnr_drains _ _ _ E (proj1 Hb) HL0 HT0 Hf) as Hd. clear E. rename Hd into E.
+  cbn [s_running set_running set_doneall]. rewrite R1.
+  destruct (remove_all (map fst done) (s_running st)) as [|t l] eqn:Er; [reflexivity|]. exfalso.
+  assert (Hin : In t (remove_all (map fst done) (s_running st))) by (rewrite Er; left; reflexivity).
+  apply remove_all_In in Hin. destruct Hin as [Hin Hn]. apply Hn. apply amem_keys. apply E. exact Hin.
+Qed.
+
+Lemma poll_cur st st' err : poll prm o st = (st', err) -> s_nw st <= s_nw st' /\ s_nc st' = s_nc st.
+Proof.
+  unfold poll. destruct (process_new_results prm o (emit ECbLoopStart st)) as [[st1 done] err1] eqn:E.
+  apply pnr_cur in E. simpl in E. destruct err1; intro H; injection H as <- _; simpl; exact E.
+Qed.
+
+Lemma poll_Tinv st st' err : poll prm o st = (st', err) -> Tinv st -> Tinv st'.
+Proof.
+  unfold poll. destruct (process_new_results prm o (emit ECbLoopStart st)) as [[st1 done] err1] eqn:E.
+  intros H HT.
+  assert (HT1 : Tinv st1).
+  { revert E. unfold process_new_results.
+    set (order := poll_order (s_running (emit ECbLoopStart st)) (o_ord o (s_np (emit ECbLoopStart st)))).
+    set (st0 := emit (EBFetch order) (set_np (emit ECbLoopStart st) (S (s_np (emit ECbLoopStart st))))).
+    destruct (fetch o order st0) as [[st1a sd] rs] eqn:Ef. apply fetch_spec in Ef. destruct Ef as (A & _).
+    set (st1' := emit (ECbFetch sd (map (fun r => (fst (fst r), snd (fst r))) rs)) st1a).
+    assert (HT1' : Tinv st1').
+    { intros t Ht. unfold st1' in *. simpl in *. destruct A as (_ & _ & Htr & _ & Hs & _). rewrite Hs in Ht. simpl in Ht.
+      destruct (HT t Ht) as [i Hi]. exists i. right. rewrite Htr. simpl. right. right. exact Hi. }
+    destruct (Nat.ltb (n_workers prm) (length (s_running st1'))); [intro E; injection E as <- _ _; exact HT1'|].
+    destruct (loop1 o sd rs st1' []) as [st2 done2] eqn:E1. apply loop1_sst in E1. destruct E1 as (X1 & _).
+    destruct (loop2 sd st2 done2) as [[st3 done3] err3] eqn:E2. unfold loop2 in E2. apply loop2_sst in E2. destruct E2 as (X2 & _).
+    assert (HT3 : Tinv st3) by (eapply Tinv_ext; [exact X2|]; eapply Tinv_ext; [exact X1|exact HT1']).
+    destruct err3; intro E; injection E as <- _ _; [exact HT3|].
+    destruct (status_update_frame (aupdate sd done3) rs st3) as (_ & _ & _ & F4 & _ & _ & _ & F8).
+    intros t Ht. rewrite F8 in Ht. rewrite F4. apply HT3. exact Ht. }
+  destruct err1; injection H as <- _; [exact HT1|]. intros t Ht. apply (HT1 t Ht).
+Qed.
+
+Lemma schedule_new_task_frame st st' r : schedule_new_task o st = (st', r) ->
+  s_sstopped st' = s_sstopped st /\ s_nw st' = s_nw st /\ s_nc st' = s_nc st /\ ext sched_ev st st'.
+Proof.
+  intro H. pose proof (schedule_new_task_ext _ _ _ _ H) as He. split; [|split; [|split; [|exact He]]];
+  unfold schedule_new_task in H; destruct (o_sug o (s_ns st)) as [|cfg ck|id cfg];
+    try (injection H as <- _; reflexivity);
+    (destruct (Nat.ltb id (s_ntrials st)); [destruct (b_td _)|]; injection H as <- _; reflexivity).
+Qed.
+Lemma schedule_k_frame k : forall st st' r, schedule_k o k st = (st', r) ->
+  s_sstopped st' = s_sstopped st /\ s_nw st' = s_nw st /\ s_nc st' = s_nc st /\ ext sched_ev st st'.
+Proof.
+  induction k as [|k IH]; intros st st' r H; simpl in H.
+  - injection H as <- _. repeat split; auto. apply ext_refl.
+  - destruct (schedule_new_task o st) as [st1 r1] eqn:E1. apply schedule_new_task_frame in E1.
+    destruct E1 as (A1 & B1 & C1 & D1).
+    destruct r1; [apply IH in H; destruct H as (A & B & C & D); repeat split; try congruence; eapply ext_trans; eauto| |];
+      injection H as <- _; auto.
+Qed.
+Lemma schedule_new_tasks_frame st st' r : schedule_new_tasks prm o st = (st', r) ->
+  s_sstopped st' = s_sstopped st /\ s_nw st' = s_nw st /\ s_nc st' = s_nc st /\ exists new, s_trace st' = new ++ s_trace st.
+Proof.
+  unfold schedule_new_tasks. destruct (Nat.leb _ _).
+  - intro H; injection H as <- _. simpl. repeat split; auto. exists [ECbSleep]. reflexivity.
+  - intro H. apply schedule_k_frame in H. destruct H as (A & B & C & (new & D & _)). repeat split; auto. exists new. exact D.
+Qed.
+Lemma Tinv_frame st st' : s_sstopped st' = s_sstopped st -> (exists new, s_trace st' = new ++ s_trace st) -> Tinv st -> Tinv st'.
+Proof. intros Hs [new Ht] HT. eapply Tinv_ext; [|exact HT]. eapply sst_ext_same; eauto. Qed.
+
+Lemma iteration_end_frame2 st st' c : iteration_end prm o st = (st', c) ->
+  s_sstopped st' = s_sstopped st /\ s_nw st' = s_nw st /\ s_nc st' = S (s_nc st) /\
+  (exists new, s_trace st' = new ++ s_trace st) /\ s_running st' = s_running st /\
+  (o_ext o (s_nc st) = true -> c = true).
+Proof.
+  unfold iteration_end, stop_condition. intro H. injection H as <- <-. simpl. repeat split; auto.
+  - eexists [_; _]. reflexivity.
+  - intros ->. rewrite orb_true_r. reflexivity.
+Qed.
+
+(* ---- termination of the drain phase ------------------------------------------------------------------------ *)
+Definition DInv (st : state) : Prop := binv prm st /\ LInv st /\ Tinv st.
+(* from the cursors of [st] on: every look shows a final status, the (user) stop criterion holds *)
+Definition Dc (st : state) : Prop := looks_final_from (s_nw st) /\ (forall n, s_nc st <= n -> o_ext o n = true).
+
+Lemma Dc_mono st st' : s_nw st <= s_nw st' -> s_nc st <= s_nc st' -> Dc st -> Dc st'.
+Proof. intros A B [H1 H2]. split; [intros n Hn; apply H1; lia|intros n Hn; apply H2; lia]. Qed.
+
+Lemma poll_DInv st st' : poll prm o st = (st', None) -> DInv st -> DInv st'.
+Proof.
+  intros H (A & B & C). split; [|split].
+  - eapply poll_budget; eauto.
+  - eapply poll_life; eauto.
+  - eapply poll_Tinv; eauto.
+Qed.
+
+(* an iteration that starts with the stop condition True ends the loop *)
+Lemma drain_one f st ex :
+  wait_completion prm = true -> DInv st -> Dc st ->
+  exists st' x, loop prm o (S f) st true ex = (st', x) /\ x <> LFuel.
+Proof.
+  intros Hw (A & B & C) [Hf _]. rewrite loop_S.
+  destruct (while_cond prm st true); [|eexists _, _; split; [reflexivity|discriminate]].
+  destruct (poll prm o st) as [st1 err] eqn:Ep.
+  destruct err as [e|]; [eexists _, _; split; [reflexivity|discriminate]|].
+  rewrite Hw. simpl. rewrite orb_true_r.
+  rewrite (poll_drains _ _ Ep A B C Hf). eexists _, _; split; [reflexivity|discriminate].
+Qed.
+
+Lemma drain_two st c ex :
+  wait_completion prm = true -> DInv st -> Dc st ->
+  exists st' x, loop prm o 2 st c ex = (st', x) /\ x <> LFuel.
+Proof.
+  intros Hw HI HD. destruct c; [apply drain_one; auto|].
+  pose proof HI as (A & B & C). pose proof HD as [Hf Hx]. rewrite loop_S.
+  destruct (while_cond prm st false); [|eexists _, _; split; [reflexivity|discriminate]].
+  destruct (poll prm o st) as [st1 err] eqn:Ep.
+  destruct err as [e|]; [eexists _, _; split; [reflexivity|discriminate]|].
+  pose proof (poll_drains _ _ Ep A B C Hf) as Hr1.
+  pose proof (poll_DInv _ _ Ep HI) as (A1 & B1 & C1).
+  pose proof (poll_cur _ _ _ Ep) as [Hnw1 Hnc1].
+  rewrite andb_false_r, orb_false_r. destruct ex.
+  - rewrite Hr1. eexists _, _; split; [reflexivity|discriminate].
+  - destruct (schedule_new_tasks prm o st1) as [st2 r] eqn:Es.
+    pose proof (schedule_new_tasks_frame _ _ _ Es) as (Fs & Fnw & Fnc & Ftr).
+    pose proof (schedule_new_tasks_budget _ _ _ _ _ Es A1) as [A2 _].
+    pose proof (schedule_new_tasks_life _ _ _ _ _ Es B1) as B2.
+    pose proof (Tinv_frame _ _ Fs Ftr C1) as C2.
+    assert (Hnext : forall ex', exists st' x,
+              (let '(st3, c') := iteration_end prm o st2 in loop prm o 1 st3 c' ex') = (st', x) /\ x <> LFuel).
+    { intro ex'. destruct (iteration_end prm o st2) as [st3 c'] eqn:Ei.
+      pose proof (iteration_end_frame2 _ _ _ Ei) as (Gs & Gnw & Gnc & Gtr & Grun & Gc).
+      assert (Hc' : c' = true) by (apply Gc; apply Hx; lia). subst c'.
+      apply drain_one; [exact Hw| |].
+      - split; [eapply iteration_end_budget; eauto|split; [eapply iteration_end_life; eauto|eapply Tinv_frame; eauto]].
+      - eapply Dc_mono; [| |exact HD]; lia. }
+    destruct r as [| |e]; [apply Hnext|apply Hnext|eexists _, _; split; [reflexivity|discriminate]].
+Qed.
+
+(* running on after the fuel ran out is the same as continuing the loop from that state *)
+Lemma loop_continue a : forall st c ex st1, loop prm o a st c ex = (st1, LFuel) ->
+  forall b, exists c1 ex1, loop prm o (a + b) st c ex = loop prm o b st1 c1 ex1.
+Proof.
+  induction a as [|a IH]; intros st c ex st1 H b.
+  - simpl in H. injection H as <-. exists c, ex. reflexivity.
+  - change (S a + b) with (S (a + b)). rewrite loop_S in *.
+    destruct (while_cond prm st c); [|discriminate].
+    destruct (poll prm o st) as [st2 err]. destruct err; [discriminate|].
+    destruct (ex || wait_completion prm && c).
+    + destruct (s_running st2); [discriminate|].
+      destruct (iteration_end prm o (sleep st2)) as [st3 c']. eapply IH; eauto.
+    + destruct (schedule_new_tasks prm o st2) as [st3 r]. destruct r; [| |discriminate];
+        destruct (iteration_end prm o st3) as [st4 c']; eapply IH; eauto.
+Qed.
+
+Lemma run_loop_DInv fuel st : run_loop prm o fuel = (st, LFuel) -> DInv st.
+Proof.
+  unfold run_loop. destruct (stop_condition prm o (emit ECbTuningStart init_state)) as [st0 c0] eqn:E0. intro H.
+  assert (G : LFuel = LFuel -> DInv st); [|apply G; reflexivity].
+  eapply (loop_rule2 prm o (fun s _ _ => DInv s) (fun s _ _ => DInv s) (fun s x => x = LFuel -> DInv s)); [| | | | | |exact H|].
+  - auto.
+  - discriminate.
+  - intros s c ex s' err HI _ Ep. destruct err; [discriminate|]. eapply poll_DInv; eauto.
+  - discriminate.
+  - intros s c ex s' c' (A & B & C) _ _ Ei.
+    pose proof (iteration_end_frame2 _ _ _ Ei) as (Gs & _ & _ & Gtr & _).
+    split; [eapply iteration_end_budget; [exact Ei|apply binv_emit; exact A]|].
+    split; [eapply iteration_end_life; [exact Ei|apply LInv_emit_quiet; [reflexivity|exact B]]|].
+    eapply Tinv_frame; [exact Gs|exact Gtr|]. intros t Ht. destruct (C t Ht) as [i Hi]. exists i. right. exact Hi.
+  - intros s c ex s2 r (A & B & C) _ Es.
+    pose proof (schedule_new_tasks_frame _ _ _ Es) as (Fs & _ & _ & Ftr).
+    pose proof (schedule_new_tasks_budget _ _ _ _ _ Es A) as [A2 _].
+    pose proof (schedule_new_tasks_life _ _ _ _ _ Es B) as B2.
+    pose proof (Tinv_frame _ _ Fs Ftr C) as C2.
+    assert (Hn : forall s3 c', iteration_end prm o s2 = (s3, c') -> DInv s3).
+    { intros s3 c' Ei. pose proof (iteration_end_frame2 _ _ _ Ei) as (Gs & _ & _ & Gtr & _).
+      split; [eapply iteration_end_budget; eauto|split; [eapply iteration_end_life; eauto|eapply Tinv_frame; eauto]]. }
+    destruct r; [exact Hn|exact Hn|discriminate].
+  - unfold stop_condition in E0. injection E0 as <- _. split; [|split].
+    + unfold binv. simpl. repeat split; [constructor|lia|intros t Ht; lia].
+    + unfold LInv, LI. simpl. repeat split; auto; try discriminate.
+      * intros t [Hx|Hx]; discriminate.
+      * intros t [].
+    + intros t [].
+Qed.
+
+(* C12 liveness: if after f0 iterations the loop is still running, and from the oracle cursors of that moment on
+   every look at a worker shows a final status and the stop criterion holds, then two more iterations end the loop;
+   when it ends without an exception no trial is running. *)
+Theorem drain_terminates f0 st0 :
+  wait_completion prm = true -> run_loop prm o f0 = (st0, LFuel) ->
+  looks_final_from (s_nw st0) -> (forall n, s_nc st0 <= n -> o_ext o n = true) ->
+  exists st x, run_loop prm o (f0 + 2) = (st, x) /\ x <> LFuel /\ (x = LExit None -> s_running st = []).
+Proof.
+  intros Hw H Hf Hx. pose proof (run_loop_DInv _ _ H) as HI.
+  unfold run_loop in *. destruct (stop_condition prm o (emit ECbTuningStart init_state)) as [s0 c0] eqn:E0.
+  destruct (loop_continue _ _ _ _ _ H 2) as (c1 & ex1 & Heq).
+  destruct (drain_two st0 c1 ex1 Hw HI (conj Hf Hx)) as (st & x & Hl & Hne).
+  exists st, x. rewrite Heq. split; [exact Hl|]. split; [exact Hne|].
+  intro Hn. assert (Hrl : run_loop prm o (f0 + 2) = (st, x)) by (unfold run_loop; rewrite E0, Heq; exact Hl).
+  apply run_loop_exit in Hrl. destruct Hrl as [_ Hex]. apply (Hex Hn). exact Hw.
+Qed.
+
 End Liveness.
